@@ -1,9 +1,15 @@
 #!/usr/bin/env python3
-"""C16 — new mail wakes the daemon: no lost trigger (every interleaving), no sleep with work pending."""
+"""C16 — new mail wakes the daemon: no lost trigger (every interleaving), bounded steps, no sleep with work pending,
+select preparation (timeout and descriptor sets) of the real daemon compared with Nq.SelPrep at every select."""
 import os, sys
 sys.path.insert(0, os.path.join(os.path.dirname(os.path.abspath(__file__)), "..", "tools"))
 import nqlib
 from nqlib import Check, run_pipeline, parse_driver_output, standard_verdict, driver_path, NCPU, VERIF, kv
+
+
+# qmail-send globals that harness/c16_snap.h reads (kept global in the qs instance; everything else is localised)
+SNAP_GLOBALS = ["flagexitasap", "flagspawnalive", "flagcleanup", "numjobs", "recent", "nexttodorun", "cleanuptime", "pass", "jo",
+                "pqdone", "pqchan", "pqfail", "comm_buf", "concurrency", "concurrencyused", "tododir", "chanfdout", "chanfdin"]
 
 
 def main():
@@ -16,7 +22,7 @@ def main():
     neighbourhood = None
     if s.ok and c.driver_ok:
         try:
-            o1, e1 = s.prog_object("qs", "qmail-send.c", "qmail-send", keep_globals=["auto_split", "d"], objs_exclude=["qmail.o"])
+            o1, e1 = s.prog_object("qs", "qmail-send.c", "qmail-send", keep_globals=["auto_split", "d"] + SNAP_GLOBALS, objs_exclude=["qmail.o"])
             o2, e2 = s.prog_object("qc", "qmail-clean.c", "qmail-clean")
             o3, e3 = s.prog_object("qa", "qmail-queue.c", "qmail-queue")
             o4, e4 = s.prog_object("qb", "qmail-queue.c", "qmail-queue")
@@ -24,9 +30,20 @@ def main():
                      extra="%s/harness/sim.c %s %s %s %s -lpthread -ldl" % (VERIF, o1, o2, o3, o4))
             drv = driver_path("drv_c16")
             nrand, ndfs = (250, 150) if c.tier == "quick" else (4000, 20000)
+            hsel = s.cc(os.path.join(VERIF, "harness/c16_selprep.c"), os.path.join(s.dir, "h_c16sel"),
+                        extra="%s/harness/sim.c %s %s %s %s -lpthread -ldl" % (VERIF, o1, o2, e1, e2))
             cmds = []
+            replay_sel = None
             if c.replay:
-                cmds.append("%s - < %s" % (h, c.replay))
+                # schedule lines ("<ninj> <c0,c1,..> <snap>") go to the trigger harness, scenario lines ("m=...") to the daemon harness
+                lines = [l for l in open(c.replay).read().split("\n") if l.strip()]
+                sched = [l for l in lines if not l.lstrip().startswith("m=")]
+                scen = [l for l in lines if l.lstrip().startswith("m=")]
+                if sched:
+                    f1 = os.path.join(s.dir, "replay_sched.txt"); open(f1, "w").write("\n".join(sched) + "\n")
+                    cmds.append("%s - < %s" % (h, f1))
+                if scen:
+                    replay_sel = os.path.join(s.dir, "replay_scen.txt"); open(replay_sel, "w").write("\n".join(scen) + "\n")
             else:
                 corpus = os.path.join(VERIF, "corpus", "C16.txt")
                 if os.path.exists(corpus):
@@ -34,8 +51,21 @@ def main():
                 cmds.append("%s 0 100000 %d 0 1" % (h, c.seed))                       # one injector: exhaustive
                 cmds += ["%s 1 %d %d %d %d" % (h, nrand, c.seed, i, NCPU) for i in range(NCPU)]   # two injectors: random schedules
                 cmds += ["%s 2 %d %d %d %d" % (h, ndfs, c.seed, i, NCPU) for i in range(9)]       # two injectors: DFS, partitioned
-            outs = run_pipeline(cmds, drv)
+            outs = run_pipeline(cmds, drv) if cmds else []
             stats, samples, disagree, oracle, errors = parse_driver_output(outs)
+            # select-preparation leg: the daemon scenarios of qsend.c with a snapshot of the daemon's globals at every select
+            nsel = 400 if c.tier == "quick" else 8000
+            selcmds = (["%s - < %s" % (hsel, replay_sel)] if replay_sel else
+                       [] if c.replay else ["%s %d %d %d %d" % (hsel, nsel, c.seed, i, NCPU) for i in range(NCPU)])
+            if selcmds:
+                outs3 = run_pipeline(selcmds, drv + " selprep")
+                st3, sm3, di3, or3, er3 = parse_driver_output(outs3)
+                for k, v in st3.items():
+                    if isinstance(v, (int, float)):
+                        stats[k] = stats.get(k, 0) + v
+                samples += sm3[:3]; disagree += di3; oracle += or3; errors += er3
+                c.cov["daemon_scenarios_with_snapshots"] = int(st3.get("cases", 0))
+            c.cov["selects_compared_with_SelPrep"] = int(sum(v for k, v in stats.items() if k.startswith("snap_") and k != "snap_distinct"))
             # second leg (no busy loop): daemon histories of the C03 harness, judged by the spin oracle of drv_c03
             if not c.replay:
                 hq = s.cc(os.path.join(VERIF, "harness/qsend.c"), os.path.join(s.dir, "h_qsend"),
@@ -77,16 +107,25 @@ def main():
                      "whenever every runnable program is about to make a trigger-related system call (link todo / open, write, close of the FIFO / trigger_set's "
                      "close and open / opendir, readdir of todo / select). One injector: every schedule (depth-first, complete). Two injectors (the second starts "
                      "when the first has written its byte): seeded random schedules plus depth-first enumeration partitioned by the first two decisions "
-                     "(%s). Each trace is replayed through Trigger.accept; the oracle fails if the daemon ever sleeps with a positive timeout, or the run ends, while a completed injection is unprocessed. "
-                     "non-trivial = distinct schedule" % ("capped at 150 schedules per partition in the quick tier" if c.tier == "quick" else "capped at 20000 schedules per partition"))
+                     "(%s). Each trace is replayed through Trigger.accept; the oracle fails if the daemon ever sleeps with a positive timeout, or the run ends, while a completed injection is unprocessed, "
+                     "or if a completed injection is not processed within the 2*|todo|+3 own steps of the daemon of C16_bounded. "
+                     "Select preparation: in these runs and in the daemon scenarios of harness/qsend.c (deliveries, deferrals, bounce failures, signals, faults, crashes, restarts, "
+                     "concurrency bounds; harness/c16_selprep.c) the globals of the running qmail-send are read at every select (harness/c16_snap.h) and printed with the timeout and "
+                     "descriptor sets the real code passed; SelPrep.timeout/rfds/wfds must agree (DISAGREE) and the predicates of C16_no_spin / C16_early_return_acts are evaluated on "
+                     "the implementation's values (ORACLE: timeout 0 iff something pending, otherwise exactly min(due times, recent+SLEEP_FOREVER) - recent + SLEEP_FUZZ; only "
+                     "descriptors the loop body acts on are watched, and none it must react to is missing). non-trivial = distinct schedule / scenario" % ("capped at 150 schedules per partition in the quick tier" if c.tier == "quick" else "capped at 20000 schedules per partition"))
     c.cov["exhaustive"] = False
     c.cov["samples"] = samples[:6] or ["(none)"]
-    c.cov["input_distribution"] = {k: v for k, v in stats.items() if k.startswith("ev_")}
-    c.assumptions += ["FIFO semantics of DESIGN.md 1.4 as implemented by harness/sim.c (ENXIO on open without reader, EPIPE on write without reader, "
+    c.cov["input_distribution"] = {k: v for k, v in stats.items() if k.startswith("ev_") or k.startswith("snap_") or k.startswith("daemon_")}
+    c.assumptions += ["between recent = now() and select() the main loop only runs the *_selprep functions, which do not write the globals they read: "
+                      "the snapshot taken inside select() is what wakeup/timeout/descriptor sets were computed from",
+                      "times are modelled as unbounded integers (no overflow of datetime_sec = long)",
+                      "FIFO semantics of DESIGN.md 1.4 as implemented by harness/sim.c (ENXIO on open without reader, EPIPE on write without reader, "
                       "readable until the last descriptor closes)", "readdir may or may not report entries linked after opendir (both are exercised)",
                       "fairness bound in the scheduler: a program chosen 12 times in a row yields (cuts the branch in which the daemon rescans forever while an injector holds the FIFO open)"]
-    standard_verdict(c, ok, stats, disagree, oracle, errors, "Trigger.accept (Nq/Trigger.lean) vs the trigger-related system calls of qmail-queue.c/triggerpull.c and qmail-send.c/trigger.c",
-                     neighbourhood, replay_hint="./check C16 --replay <file with '<ninj> <c0,c1,...> <snapshot 0|1>' schedule lines>")
+    standard_verdict(c, ok, stats, disagree, oracle, errors, "Trigger.accept (Nq/Trigger.lean) vs the trigger-related system calls of qmail-queue.c/triggerpull.c and qmail-send.c/trigger.c; "
+                     "SelPrep.timeout/rfds/wfds (Nq/SelPrep.lean) vs the select arguments of qmail-send.c main() on snapshots of its globals",
+                     neighbourhood, replay_hint="./check C16 --replay <file with '<ninj> <c0,c1,...> <snapshot 0|1>' schedule lines and/or 'm=...' daemon scenario lines (the text after CASE)>")
     c.finish()
 
 
